@@ -13,7 +13,7 @@ const BATCH: u64 = 50;
 
 pub fn sections(ctx: &Ctx) -> Vec<(&'static str, u64)> {
     let (plain, hostile, compile, defplace) = match ctx.tier {
-        Tier::Quick => (100, 200, 60, 40),
+        Tier::Quick => (300, 600, 150, 100),
         Tier::Thorough => (8_000, 24_000, 4_000, 4_000),
     };
     vec![
